@@ -68,6 +68,8 @@ def _build(base, parents, name="proj"):
     # ignore rules that are written relative to the project: a repository-level list and a per-linter list
     (d / ".thailintignore").write_text("app/skipped_magic.py\ntop_skipped.py\n")
     (d / "app" / "skipped_magic.py").write_text(triggers.T["magic.py"][3].replace("3975", "5501"))
+    (d / "app" / "cqs_skipped.py").write_text(triggers.T["cqs.py"][3])
+    (d / "app" / "cqs_kept.py").write_text(triggers.T["cqs.py"][3].replace("fetch_and_save", "fetch_and_keep"))
     (d / "top_skipped.py").write_text(triggers.T["magic.py"][3].replace("3975", "5503"))
     (d / "app" / "half_skipped.py").write_text(triggers.T["magic.py"][3].replace("3975", "5507").replace("price", "rate") + "\n\n" + triggers.T["nest.py"][3])
     with open(d / ".thailint.yaml", "a") as fh:
@@ -75,6 +77,8 @@ def _build(base, parents, name="proj"):
         # per-linter ignore lists naming a directory the project does not have (but a parent directory may be called so)
         for sec in ("srp", "print-statements", "stateless-class", "method-property", "collection-pipeline", "nesting", "lbyl", "unwrap-abuse"):
             fh.write("%s:\n  ignore:\n    - tests/\n    - build/\n" % sec)
+        # ... and the CQS linter's own list (ignore_patterns, fnmatch)
+        fh.write("cqs:\n  enabled: true\n  ignore_patterns:\n    - app/cqs_skipped.py\n    - 'tests/*'\n")
         # placement rules are written relative to the project as well
         fh.write("file-placement:\n  directories:\n    app:\n      deny:\n        - pattern: '.*\\.rs$'\n          reason: no rust sources in app\n"
                  "  global_deny:\n    - pattern: '^top_.*\\.py$'\n      reason: no top-level modules\n")
